@@ -87,6 +87,8 @@ def check_minimize_based(case, stats, data, name):
   L0 = x0.reshape(kk, d)
   Lf = np.asarray(est.components_)
   if Lf.shape != (kk, d):
+    if name == 'NCA' and case['init'] in ('auto', 'lda') and Lf.shape[0] < kk and E.lda_rank_short(data.X, y, kk):
+      raise Discard('known-finding KF5: scikit-learn LDA returned fewer directions than n_components (owned by C03 / C20)')
     raise Violation('C10/%s/shape' % name, '%s' % (Lf.shape,))
   sx = float(data.X.std()) or 1.0
   pts = [('x0', L0), ('final', Lf)] + [('generated', np.array(p) / sx) for p in case['points']]
